@@ -91,3 +91,28 @@ Definition check_claim (c : ccase) : N :=
 
 Definition check_claims (l : list ccase) : list (N * N) :=
   filter_map (fun c => let k := check_claim c in if k =? 0 then None else Some (wc_id (cc_world c), k)) l.
+
+(* ---- VerifySession's derivation rule (validator/lib.go 363-372): the branch `proof: … violates …` is dead.
+   Both capabilities the rule is shown were read by the session descriptor's nb reader (ParseCapability for the
+   claimed one, ResolveCapability for the delegated one), whose policy pins `.proof` to the link of the delegation
+   being verified; so the two `proof` caveats are equal whenever the rule runs.  A re-delegated attestation whose
+   parent names ANOTHER delegation is refused earlier, as a malformed capability (worlds "attest-redelegation
+   parent=2" of C02 / C04). *)
+Lemma attest_nb_pins auth l n m :
+  ds_nb (attest_desc auth l) n = Some m -> cmap_proof m = Some l.
+Proof.
+  unfold attest_desc; cbn [ds_nb]. destruct n as [m'| |]; try discriminate.
+  destruct (cmap_proof m') as [l'|] eqn:E; try discriminate.
+  destruct (N.eqb_spec l' l) as [->|]; try discriminate.
+  intros H; inversion H; subst; exact E.
+Qed.
+
+Theorem attest_proof_mismatch_dead auth l (claimed delegated : cap) n1 n2 :
+  ds_nb (attest_desc auth l) n1 = Some (nb claimed) ->
+  ds_nb (attest_desc auth l) n2 = Some (nb delegated) ->
+  ds_derives (attest_desc auth l) claimed delegated = default_derives (wth claimed) (wth delegated).
+Proof.
+  intros H1 H2. apply attest_nb_pins in H1. apply attest_nb_pins in H2.
+  unfold attest_desc; cbn [ds_derives]. rewrite H1, H2. cbn [option_eqb]. rewrite N.eqb_refl. apply andb_true_r.
+Qed.
+Print Assumptions attest_proof_mismatch_dead.
